@@ -1,0 +1,20 @@
+//go:build verif
+// +build verif
+
+package service
+
+// Verification hook H6: yield points at the two gaps of the transaction pool
+// that lie outside any lock. The harness may reschedule or sleep there.
+var VerifYieldHook func(point string)
+
+func verifYield(point string) {
+	if h := VerifYieldHook; h != nil {
+		h(point)
+	}
+}
+
+// VerifNewTransactionPool builds a pool exactly as initTransactionPool does
+// (its executed store is the LevelDB "tx" under the current storage dir).
+func VerifNewTransactionPool() TransactionPool {
+	return newTransactionPool()
+}
